@@ -84,6 +84,11 @@ type prog struct {
 	k      int
 	writes []write
 	ret    string // "" plain stream
+	// what the handler does, in place, to the start element it was handed a
+	// pointer to (after reading and writing): "" nothing, "rename" (into a
+	// message, to pass the payload on), "clearns", "dropattrs", "scribble"
+	// (overwrites every attribute value)
+	mutate string
 }
 
 type elem struct {
@@ -323,6 +328,9 @@ func genCase(t *rapid.T) tcase {
 		if rapid.IntRange(0, 7).Draw(t, "ret") == 0 {
 			e.prog.ret = rapid.SampledFrom([]string{"plain", "stream", "wrapeof", "eof", "wrapunexpected"}).Draw(t, "retkind")
 		}
+		if !tc.useMux && rapid.IntRange(0, 4).Draw(t, "mutates") == 0 {
+			e.prog.mutate = rapid.SampledFrom([]string{"rename", "clearns", "dropattrs", "scribble"}).Draw(t, "mutate")
+		}
 		tc.elems = append(tc.elems, e)
 	}
 	tc.closeIt = rapid.IntRange(0, 3).Draw(t, "close") > 0
@@ -348,7 +356,7 @@ func (tc tcase) String() string {
 		fmt.Fprintf(&sb, " registered=%v", ks)
 	}
 	for i, e := range tc.elems {
-		fmt.Fprintf(&sb, "\n  in[%d] %s\n     handler: read=%s/%d ret=%q writes:", i, e.node.Bytes(tc.ns()), e.prog.read, e.prog.k, e.prog.ret)
+		fmt.Fprintf(&sb, "\n  in[%d] %s\n     handler: read=%s/%d ret=%q changes-the-start-element-in-place=%q writes:", i, e.node.Bytes(tc.ns()), e.prog.read, e.prog.k, e.prog.ret, e.prog.mutate)
 		for _, w := range e.prog.writes {
 			fmt.Fprintf(&sb, " [%s%s %s]", w.kind, map[string]string{"": "", "encode": " via Encode(value)", "encodeelement": " via EncodeElement(value, start)"}[w.via], w.node.Bytes(tc.ns()))
 		}
@@ -434,7 +442,20 @@ func (r *runner) HandleXMPP(t xmlstream.TokenReadEncoder, start *xml.StartElemen
 	if i >= len(r.tc.elems) {
 		return nil
 	}
-	return r.run(r.tc.elems[i].prog, t)
+	err := r.run(r.tc.elems[i].prog, t)
+	switch r.tc.elems[i].prog.mutate {
+	case "rename":
+		start.Name.Local = "message"
+	case "clearns":
+		start.Name.Space = ""
+	case "dropattrs":
+		start.Attr = start.Attr[:0]
+	case "scribble":
+		for j := range start.Attr {
+			start.Attr[j].Value = "scribbled@example.org"
+		}
+	}
+	return err
 }
 
 // ---------------------------------------------------------------- model
@@ -815,6 +836,9 @@ func classify(tc tcase) (bool, []string) {
 	for _, e := range tc.elems {
 		if e.kind == "iq" {
 			classes = append(classes, "iq-"+e.typ)
+			if e.prog.mutate != "" {
+				classes = append(classes, "handler-changes-start-element-in-place-"+e.prog.mutate)
+			}
 			needs := e.typ == "get" || e.typ == "set"
 			if needs && len(e.prog.writes) > 0 && (!tc.useMux || tc.reg[key(e.typ, e.payload)]) {
 				nt = true
